@@ -1,12 +1,16 @@
 package transaction
 
 import (
+	"sync"
+
 	"github.com/glebziz/containers/omap"
 
 	"github.com/glebziz/fs_db/internal/model"
 )
 
 type Repo struct {
+	// m orders the iteration of Oldest (the map's iterator takes no lock) with Store and Delete.
+	m       sync.RWMutex
 	storage *omap.OMap[string, model.Transaction]
 }
 
